@@ -438,12 +438,22 @@ func (r *c33Replay) apply(o c33Op, skipNS bool) {
 // c33ApplyPend applies p to data; torn >= 0 keeps only the first torn bytes
 // of a write.
 func c33ApplyPend(data []byte, p c33Pend, torn int) []byte {
+	return c33ApplyPendZ(data, p, torn, false)
+}
+
+func c33ApplyPendZ(data []byte, p c33Pend, torn int, zero bool) []byte {
 	if p.trunc {
 		return c33TruncTo(data, p.size)
 	}
 	b := p.data
 	if torn >= 0 && torn < len(b) {
-		b = b[:torn]
+		if zero {
+			z := make([]byte, len(b))
+			copy(z, b[:torn])
+			b = z
+		} else {
+			b = b[:torn]
+		}
 	}
 	// copy-on-write: never alias the durable buffer between states
 	out := make([]byte, len(data), max(len(data), int(p.off)+len(b)))
@@ -457,9 +467,16 @@ func c33ApplyPend(data []byte, p c33Pend, torn int) []byte {
 type c33Choice struct {
 	Keep int
 	Torn int
+	Zero bool // torn write whose length made it to disk: the lost tail reads as zeros
 }
 
+// c33ZeroFill adds the zero-filled-tail torn patterns (thorough tier).
+var c33ZeroFill bool
+
 func (c c33Choice) String() string {
+	if c.Torn >= 0 && c.Zero {
+		return fmt.Sprintf("keep%d+torn@%d+zero-filled-to-full-length", c.Keep, c.Torn)
+	}
 	if c.Torn >= 0 {
 		return fmt.Sprintf("keep%d+torn@%d", c.Keep, c.Torn)
 	}
@@ -482,6 +499,9 @@ func c33Choices(p []c33Pend) []c33Choice {
 			if t >= 1 && t < n && !seen[t] {
 				seen[t] = true
 				out = append(out, c33Choice{Keep: k, Torn: t})
+				if c33ZeroFill {
+					out = append(out, c33Choice{Keep: k, Torn: t, Zero: true})
+				}
 			}
 		}
 	}
@@ -522,7 +542,7 @@ func (r *c33Replay) materialiseMulti(devs map[int]c33Choice, baseAll bool) *c33F
 			data = c33ApplyPend(data, mi.pending[k], -1)
 		}
 		if c.Torn >= 0 && c.Keep < len(mi.pending) {
-			data = c33ApplyPend(data, mi.pending[c.Keep], c.Torn)
+			data = c33ApplyPendZ(data, mi.pending[c.Keep], c.Torn, c.Zero)
 		}
 		n := &c33Inode{id: id, data: data}
 		built[id] = n
@@ -2006,7 +2026,7 @@ type c33Job struct {
 	lostAt  int
 }
 
-const c33ProductCap = 400
+const c33ProductCap = 600
 
 type c33Stats struct {
 	mu              sync.Mutex
@@ -2714,6 +2734,7 @@ func c33Child() {
 	r := ev.New("C33", "model_checking")
 	vs := c33NewViols()
 	thorough := ev.Thorough()
+	c33ZeroFill = thorough
 	curDir := os.Getenv("C33_CURDIR")
 
 	builders := []func(*c33Viols, int) *c33Live{c33WorkloadA}
@@ -2762,7 +2783,7 @@ func c33Child() {
 		wg.Wait()
 	}
 
-	r.Rule("every prefix of the recorded fs-operation log of each workload (crash after operation i, all i) x loss patterns of data written after the last Sync of each file: {all kept, none kept, every proper prefix of the unsynced ops, the last kept write torn at byte 1 / middle / len-1}; across files: quick is deviation-bounded (one file deviates, the others all-kept or none-kept), thorough takes the full cartesian product whenever it has <= 400 combinations (else deviation-bounded; counted); directory operations durable in order (the source never syncs directories); thorough adds the variant where a rename not followed by any Sync is lost with all later namespace operations. A state is distinct by content hash of the materialised file system + the set of acknowledged/issued operations at that point; each distinct state is recovered by a fresh real cluster and read back through the protocol; the recovered cluster then acknowledges one produce per partition and one offset commit per group and is crashed again (all acknowledged data was fsynced; unsynced data lost / kept), and a third cluster must show the first recovery's log + the new batches and commits")
+	r.Rule("every prefix of the recorded fs-operation log of each workload (crash after operation i, all i) x loss patterns of data written after the last Sync of each file: {all kept, none kept, every proper prefix of the unsynced ops, the last kept write torn at byte 1 / middle / len-1 (thorough: also the same torn writes with the lost tail reading back as zeros up to the full length)}; across files: quick is deviation-bounded (one file deviates, the others all-kept or none-kept), thorough takes the full cartesian product whenever it has <= 600 combinations (else deviation-bounded; counted); directory operations durable in order (the source never syncs directories); thorough adds the variant where a rename not followed by any Sync is lost with all later namespace operations. A state is distinct by content hash of the materialised file system + the set of acknowledged/issued operations at that point; each distinct state is recovered by a fresh real cluster and read back through the protocol; the recovered cluster then acknowledges one produce per partition and one offset commit per group and is crashed again (all acknowledged data was fsynced; unsynced data lost / kept), and a third cluster must show the first recovery's log + the new batches and commits")
 	r.Assume("the response observed by the client is the acknowledgement; its ack point is the fs-log length when the response arrived (a Sync issued after sending the response but before the client observed it would be missed)",
 		"write/truncate of one file become durable in issue order (prefix loss + one torn write), fsync makes all earlier data operations of that inode durable",
 		"forEachPartition runs partition saves in goroutines: the interleaving of their fs operations in the recorded log is whatever this run produced",
@@ -2838,9 +2859,11 @@ func c33Replayer(path string) {
 	if strings.Contains(doc.What, "workload C-") {
 		extra = append(extra, BrokerConfigs(map[string]string{"state.log.compact.bytes": "300"}))
 	}
+	initial := fsys.clone()
+	fsys.rec = true
 	n, err := c33Start(fsys, extra)
 	if err != nil {
-		fmt.Printf("verdict: NewCluster failed: %v\n", err)
+		fmt.Printf("verdict: VIOLATION reproduced: NewCluster failed: %v\n", err)
 		os.Exit(1)
 	}
 	ref := c33NewRef()
@@ -2856,12 +2879,45 @@ func c33Replayer(path string) {
 	}
 	ref.Groups = []string{"g", "gc"}
 	obs, err := c33Observe(n, ref, false)
-	n.close()
 	if err != nil {
-		fmt.Printf("verdict: recovered cluster unreadable: %v\n", err)
+		n.close()
+		fmt.Printf("verdict: VIOLATION reproduced: recovered cluster unreadable: %v\n", err)
 		os.Exit(1)
 	}
 	out, _ := json.MarshalIndent(obs, "", " ")
-	fmt.Printf("recovered state:\n%s\nverdict: compare with the artefact's \"observed\" / \"what\"\n", out)
+	fmt.Printf("state after recovery of the stored crash state:\n%s\n", out)
+	if !strings.Contains(doc.Key, "after-recovery") {
+		n.close()
+		fmt.Println("verdict: compare with the artefact's \"observed\" / \"what\" (the reference model of the run is not stored)")
+		os.Exit(0)
+	}
+	post, vs := c33Continue(n, ref, obs, 0)
+	cut := fsys.logLen()
+	n.close()
+	rep := c33ReplayFrom(initial)
+	for _, o := range fsys.log[:cut] {
+		rep.apply(o, false)
+	}
+	n3, err := c33Start(rep.materialise(0, c33Choice{}, false), extra)
+	if err != nil {
+		fmt.Printf("verdict: VIOLATION reproduced: second recovery failed: %v\n", err)
+		os.Exit(1)
+	}
+	o3, err := c33Observe(n3, post.ref, false)
+	n3.close()
+	if err != nil {
+		fmt.Printf("verdict: VIOLATION reproduced: second recovery unreadable: %v\n", err)
+		os.Exit(1)
+	}
+	vs = append(vs, c33CheckPost(obs, post, o3)...)
+	fmt.Printf("acknowledged by the recovered cluster: %v\n", post.desc)
+	for _, x := range vs {
+		fmt.Printf("  %s: %s\n", x.Class, x.What)
+	}
+	if len(vs) > 0 {
+		fmt.Println("verdict: VIOLATION reproduced")
+		os.Exit(1)
+	}
+	fmt.Println("verdict: held (not reproduced)")
 	os.Exit(0)
 }
